@@ -25,7 +25,7 @@ META = {
 
 def k1_dot(path: str) -> str:
     """
-    pre: len(path) <= 6
+    pre: len(path) <= (PARTITION or 6)
     post: _ == ''
     """
     rt.begin()
@@ -287,9 +287,9 @@ STUBS = ['PosixModel syscalls', 'CPython posixpath/genericpath/shutil/os.makedir
 
 def obligations(tier):
     obs = [
-        CH('K1_dot_entries_all_strings', MOD, 'k1_dot', timeout=90, engine='K', regime='traced',
+        CH('K1_dot_entries_all_strings', MOD, 'k1_dot', timeout=90 if tier == 'quick' else 900, partitions=[6 if tier == 'quick' else 10], engine='K', regime='traced',
            encodes=['trashcli.put.core.trashee.should_skipped_by_specs'],
-           bounds='path: any str, len <= 6', outside='longer strings'),
+           bounds='path: any str, len <= %d' % (6 if tier == 'quick' else 10), outside='longer strings'),
         CH('W_spelling_x_kind_x_mode', MOD, 'w_spell', timeout=600, engine='W', regime='selector',
            encodes=PUT_FUNCS, stubs=STUBS, bounds='6 kinds x 22 spellings x 8 mode/reply combinations; default options'),
         CH('W_trashdir_states', MOD, 'w_dirs', timeout=900, engine='W', regime='selector',
